@@ -46,7 +46,7 @@ func T(t string, n int) tok { return tok{t, n} }
 
 // five values; batches {1,2,3} and {4,5}
 var colConfigs = []colConfig{
-	{"strings-disjoint/int-dict", []tok{T("str", 1), T("str", 2), T("str", 1), T("str", 3), T("str", 4)}, []tok{T("int", 1), T("int", 2), T("int", 3), T("int", 4), T("int", 5)}},
+	{"strings-disjoint/int-dict", []tok{T("str", 1), T("str", 2), T("str", 1), T("str", 3), T("str", 4)}, []tok{T("int", 1), T("int", 1), T("int", 2), T("int", 4), T("int", 5)}},
 	{"strings-overlap/int-dict", []tok{T("str", 1), T("str", 2), T("str", 1), T("str", 1), T("str", 2)}, []tok{T("int", 1), T("int", 2), T("int", 3), T("int", 2), T("int", 5)}},
 	{"strings-const/int-const", []tok{T("str", 1), T("str", 1), T("str", 1), T("str", 2), T("str", 2)}, []tok{T("int", 2), T("int", 2), T("int", 2), T("int", 2), T("int", 5)}},
 	{"nulls-and-missing", []tok{T("str", 1), T("nstr", 0), T("str", 2), T("miss", 0), T("str", 1)}, []tok{T("int", 1), T("nint", 0), T("int", 2), T("int", 2), T("miss", 0)}},
@@ -90,7 +90,7 @@ func main() {
 	core.Main("C09", "model_checking", run)
 }
 
-func mcModule(maxOps int) (string, string) {
+func mcModule(maxOps, emitMod, emitRem int) (string, string) {
 	all := []string{"load", "addvec", "delvec", "compact", "delete"}
 	m := &lakeh.AbsModel{Name: "VecAgg", MaxOps: maxOps, KeyOf: []int{1, 2, 3, 4, 5}, NullKey: 90, Batches: batches, ObjMode: "all",
 		Branches: []string{"main"}, OpKinds: all, Preds: [][]int{{1}}, Dir: "asc",
@@ -115,7 +115,7 @@ func mcModule(maxOps int) (string, string) {
 	mod = strings.Replace(mod, "====", fmt.Sprintf("MCCols == <<%s>>\n====", strings.Join(cfgs, ",\n  ")), 1)
 	cfg := m.Cfg(false)
 	cfg = strings.Replace(cfg, "SPECIFICATION Spec", "SPECIFICATION VSpec", 1)
-	cfg = strings.Replace(cfg, "CONSTANTS\n", "CONSTANTS\n  ColConfigs <- MCCols\n  NLegs = 2\n  MaxDict = 256\n", 1)
+	cfg = strings.Replace(cfg, "CONSTANTS\n", fmt.Sprintf("CONSTANTS\n  ColConfigs <- MCCols\n  NLegs = 2\n  MaxDict = 256\n  EmitMod = %d\n  EmitRem = %d\n", emitMod, emitRem), 1)
 	return mod, cfg
 }
 
@@ -164,11 +164,11 @@ func run(c *core.Ctx) error {
 	if c.Replay != "" {
 		return h.replay()
 	}
-	maxOps, nhist := 4, 48
+	maxOps, nhist, emitMod := 4, 48, 5
 	if !c.Quick() {
-		maxOps, nhist = 5, 600
+		maxOps, nhist, emitMod = 5, 600, 7
 	}
-	mod, cfg := mcModule(maxOps)
+	mod, cfg := mcModule(maxOps, emitMod, int(c.Seed%int64(emitMod)+int64(emitMod))%emitMod)
 	t0 := time.Now()
 	res := c.MustHold(core.TLCRun{Module: "MC_VecAgg", Cfg: cfg, Files: map[string][]byte{"MC_VecAgg.tla": []byte(mod)}, Workers: 8, Timeout: 18 * time.Minute, HeapMB: 6000})
 	if res == nil {
@@ -232,10 +232,30 @@ func run(c *core.Ctx) error {
 		}
 	}
 	t0 = time.Now()
+	// all sampled histories in one child process (respawned only after a crash)
+	batch := jobJ{Kind: "batch"}
 	for _, vh := range picked {
-		if err := h.replayHist(vh); err != nil {
-			return err
+		batch.Jobs = append(batch.Jobs, h.jobOf(vh))
+	}
+	results, ops, err := h.runChild(batch)
+	if err != nil {
+		return err
+	}
+	for i, vh := range picked {
+		pre := fmt.Sprintf("%d/", i)
+		sub := map[string]evJ{}
+		for k, v := range results {
+			if strings.HasPrefix(k, pre) {
+				sub[strings.TrimPrefix(k, pre)] = v
+			}
 		}
+		var subops []evJ
+		for _, o := range ops {
+			if o.Job == i {
+				subops = append(subops, o)
+			}
+		}
+		h.judgeHist(vh, batch.Jobs[i], sub, subops)
 	}
 	c.Set("histories_replayed", len(picked))
 	c.Logf("replayed %d histories on the real lake (child processes): %d evaluations, %d violations, %d known (%.1fs)", len(picked), c.Count("evaluations"), c.Violations(), c.Count("known_finding_hits"), time.Since(t0).Seconds())
@@ -278,7 +298,6 @@ func (h *harness) runChild(job jobJ) (map[string]evJ, []evJ, error) {
 		sc := bufio.NewScanner(stdout)
 		sc.Buffer(make([]byte, 1<<20), 1<<24)
 		pending, done := "", false
-		ops = ops[:0]
 		for sc.Scan() {
 			var ev evJ
 			if json.Unmarshal(sc.Bytes(), &ev) != nil {
@@ -291,7 +310,15 @@ func (h *harness) runChild(job jobJ) (map[string]evJ, []evJ, error) {
 				results[ev.Key] = ev
 				pending = ""
 			case "op":
-				ops = append(ops, ev)
+				dup := false
+				for _, o := range ops {
+					if o.Job == ev.Job && o.Step == ev.Step {
+						dup = true
+					}
+				}
+				if !dup {
+					ops = append(ops, ev)
+				}
 			case "done":
 				done = true
 			case "fatal":
@@ -358,6 +385,12 @@ func (h *harness) jobOf(vh *vhist) jobJ {
 	for _, st := range vh.Hist {
 		job.Steps = append(job.Steps, opJ{Op: st.Op, Batch: st.Batch, Obj: st.Obj, Objs: st.Objs, Vec: st.Vec, NewIds: st.NewIds, Res: st.Res})
 	}
+	// query after the last step and after every step at which the rule fires
+	for i, p := range vh.pred {
+		if i == len(vh.pred)-1 || p["cbs"].Vec {
+			job.At = append(job.At, i+1)
+		}
+	}
 	return job
 }
 
@@ -385,19 +418,8 @@ func sameAsg(a, b [][]int) bool {
 	return true
 }
 
-func (h *harness) replayHist(vh *vhist) error {
+func (h *harness) judgeHist(vh *vhist, job jobJ, results map[string]evJ, ops []evJ) {
 	c := h.c
-	job := h.jobOf(vh)
-	// query after the last step and after every step at which the rule fires
-	for i, p := range vh.pred {
-		if i == len(vh.pred)-1 || p["cbs"].Vec {
-			job.At = append(job.At, i+1)
-		}
-	}
-	results, ops, err := h.runChild(job)
-	if err != nil {
-		return fmt.Errorf("history %s: %w", vh.Hist.String(), err)
-	}
 	cfgName := colConfigs[vh.CC-1].Name
 	for i, st := range vh.Hist {
 		if i < len(ops) && ops[i].Res != st.Res {
@@ -510,7 +532,6 @@ func (h *harness) replayHist(vh *vhist) error {
 		h.feat["sampled"]++
 		c.Sample(map[string]any{"config": cfgName, "history": vh.Hist.String(), "values": job.Values, "last_step_results": lastStep(results, len(vh.Hist))})
 	}
-	return nil
 }
 
 func lastStep(results map[string]evJ, n int) map[string]any {
